@@ -334,7 +334,13 @@ def find_irrelevant_type(etype: tp.Type, types: List[tp.Type],
         for t in relevant_types
         if isinstance(t, tp.ParameterizedType)
     }
-    available_types = [t for t in types if t not in relevant_types]
+    # A type constructor that has the given type among its supertypes yields
+    # a subtype whatever its type arguments are, so it is not irrelevant.
+    available_types = [
+        t for t in types
+        if t not in relevant_types and not (
+            t.is_type_constructor() and t.is_subtype(etype))
+    ]
     if not available_types:
         return None
     t = utils.random.choice(available_types)
